@@ -138,6 +138,96 @@ type endpoint struct {
 	rdErr  error
 	sigs   map[string]bool
 	closeW int64 // logical time at which the close-sending call returned (0 = none)
+	dlMu   sync.Mutex
+	dls    map[uint64]time.Time // message id -> the write deadline the property names for its frames
+	curDL  time.Time            // the writer goroutine's current SetWriteDeadline value
+}
+
+func (e *endpoint) noteDL(id uint64, t time.Time) {
+	e.dlMu.Lock()
+	if e.dls == nil {
+		e.dls = map[uint64]time.Time{}
+	}
+	e.dls[id] = t
+	e.dlMu.Unlock()
+}
+
+// armedDeadlines walks the transport's op log: at every Write that carries bytes of a
+// frame of one of this endpoint's own messages, the write deadline armed on the
+// transport must be the one the property names for that frame (the writer's current
+// SetWriteDeadline value for data frames and messages sent through the writer,
+// WriteControl's own argument for its control frames). Deadlines are compared as
+// values, never against the clock. Returns the number of (write, deadline) pairs checked.
+func (e *endpoint) armedDeadlines(frames []wire.Frame, msgs []wire.Msg, decodedLen int) (checked int, report string) {
+	idOf := make([]uint64, len(frames))
+	has := make([]bool, len(frames))
+	for _, m := range msgs {
+		var id uint64
+		var ok bool
+		if m.Op == 8 {
+			code, reason, _ := wire.CloseBody(m.Data)
+			if code == 1000 && len(reason) == 8 {
+				id, ok = binary.BigEndian.Uint64([]byte(reason)), true
+			}
+		} else {
+			id, ok = payloadID(m.Data)
+		}
+		if !ok || id>>56 != e.tag {
+			continue
+		}
+		for j := m.First; j <= m.Last && j < len(frames); j++ {
+			if m.Op >= 8 && j != m.First {
+				break
+			}
+			if (frames[j].Op >= 8) == (m.Op >= 8) {
+				idOf[j], has[j] = id, true
+			}
+		}
+	}
+	e.dlMu.Lock()
+	defer e.dlMu.Unlock()
+	var armed time.Time
+	off, fi := 0, 0
+	for _, op := range e.nc.Ops() {
+		switch op.Kind {
+		case xport.OpSetWriteDeadline, xport.OpSetDeadline:
+			if op.Err == nil {
+				armed = op.T
+			}
+		case xport.OpWrite:
+			if len(op.Data) == 0 {
+				continue
+			}
+			for fi+1 < len(frames) && frames[fi+1].Off <= off {
+				fi++
+			}
+			end := decodedLen // bytes after the last complete frame belong to no decoded frame
+			if fi+1 < len(frames) {
+				end = frames[fi+1].Off
+			}
+			if fi < len(frames) && has[fi] && frames[fi].Off <= off && off < end {
+				if want, ok := e.dls[idOf[fi]]; ok {
+					checked++
+					if !armed.Equal(want) || armed.IsZero() != want.IsZero() {
+						kind := "data"
+						if frames[fi].Op >= 8 {
+							kind = "control"
+						}
+						return checked, fmt.Sprintf("bytes of a %s frame (opcode %d, message %x, stream offset %d) were written while the transport's write deadline was %s; the deadline in force for that message is %s", kind, frames[fi].Op, idOf[fi], off, dlText(armed), dlText(want))
+					}
+				}
+			}
+			off += len(op.Data)
+		}
+	}
+	return checked, ""
+}
+
+func dlText(t time.Time) string {
+	if t.IsZero() {
+		return "none"
+	}
+	return t.Format("15:04:05.000000000")
 }
 
 func (e *endpoint) newID(kind int) uint64 {
@@ -238,6 +328,16 @@ func (e *endpoint) writerLoop(client int, n int, r *gen.R, maxSize int, sent *[]
 		size := r.BoundarySize(e.cfg.WB, maxSize)
 		p := idPayload(id, size, r)
 		typ := 1 + r.Intn(2)
+		// the writer's own deadline: far in the future (never expires in a run) or none;
+		// it stays in force until changed
+		if r.Chance(1, 3) {
+			e.curDL = time.Time{}
+			if r.Bool() {
+				e.curDL = time.Now().Add(time.Hour + time.Duration(id&0xffff)*time.Microsecond)
+			}
+			e.c.SetWriteDeadline(e.curDL)
+		}
+		e.noteDL(id, e.curDL)
 		var res int
 		switch r.Intn(4) {
 		case 0, 1:
@@ -279,7 +379,9 @@ func (e *endpoint) ctlLoop(client int, n int, r *gen.R, deadline func() time.Tim
 	for i := 0; i < n && atomic.LoadInt32(stop) == 0; i++ {
 		id := e.newID(okCtl)
 		p := idPayload(id, r.Range(8, 125), r)
-		e.record(client, opIn{okCtl, id}, func() error { return e.c.WriteControl(9+r.Intn(2), p, deadline()) })
+		d := deadline()
+		e.noteDL(id, d)
+		e.record(client, opIn{okCtl, id}, func() error { return e.c.WriteControl(9+r.Intn(2), p, d) })
 		if r.Chance(1, 3) {
 			time.Sleep(time.Duration(r.Intn(300)) * time.Microsecond)
 		}
